@@ -681,6 +681,9 @@ func inspectErr(err, target error) (is bool, text string, pan string) {
 		}
 	}()
 	text = err.Error()
+	if len(text) > 300 {
+		text = text[:300] + fmt.Sprintf("...(%d bytes)", len(text))
+	}
 	is = errors.Is(err, target)
 	return
 }
@@ -737,7 +740,7 @@ func checkFaulted(res *OpResult, R []byte) *Violation {
 		}
 		if !is {
 			return &Violation{Class: "error-not-wrapped", Want: R, Got: all,
-				Detail: fmt.Sprintf("returned error %q neither is nor wraps the writer's error %q", text, s.E)}
+				Detail: fmt.Sprintf("returned error %q neither is nor wraps the writer's error %q", text, clipStr([]byte(s.E.Error()), 300))}
 		}
 		pre := all[:s.preLen]
 		if !bytes.HasPrefix(R, pre) {
